@@ -16,10 +16,13 @@ def _c17_ints(s):
 def _c17_case(c):
     p = c.split(" ")
     if p[0] in ("T", "A", "W"):
-        _, mr, mn, mx, tbl, dflt, cn, kind, data, script = p
+        _, mr, mn, mx, tbl, dflt, cn, kind, data, script, opts = p
         man = ""
         if kind[0] in "Mm":
             man, kind = kind[0], kind[1:]
+        opts = [] if opts == "-" else opts.split(",")
+        unknown, preauth = "u" in opts, "preauth" in opts
+        method = ([o[7:] for o in opts if o.startswith("method=")] + [""])[0]
         behs = []
         if script != "-":
             for b in script.split(";"):
@@ -33,7 +36,7 @@ def _c17_case(c):
             t, k = cn.split(":")
             cancel, deadline = int(t), k == "d"
         return {"op": p[0], "max_retry": int(mr), "min": int(mn), "max": int(mx), "tbl": _c17_ints(tbl), "dflt": int(dflt),
-                "cancel": cancel, "deadline": deadline, "body": kind, "manifest": man,
+                "cancel": cancel, "deadline": deadline, "body": kind, "manifest": man, "unknown_len": unknown, "method": method, "pre_auth": preauth,
                 "data": "" if data == "-" else data, "big_len": 0, "script": behs}
     if p[0] == "D":
         _, mr, mn, mx, tbl, dflt, att, out = p
